@@ -238,6 +238,7 @@ impl Property for C06 {
             "cuts": cuts,
             "steps": steps_to_json(&steps),
             "read_mode": read_mode_to_json(&gen::gen_read_mode(rng)),
+            "single": rng.chance(1, 3),
         })
     }
 
@@ -274,6 +275,7 @@ impl Property for C06 {
         let stmt = jstr(case, "stmt");
         let kind = jstr(case, "kind");
         let format = jstr(case, "format");
+        let single = jbool(case, "single");
         let aggregate = jbool(case, "aggregate");
         let defs = format!("{} {}", sqlgen::table_defs(&cfg), sqlgen::JOINED_DEFS);
         let join = stmt.contains(" JOIN ");
@@ -374,6 +376,7 @@ impl Property for C06 {
         };
         let mut cspec = batch_spec(&defs, &stmt, &build_files(false), jclean.as_deref());
         cspec.format = format.clone();
+        cspec.single_result = single;
         let clean = run(&mut out, "clean twin (batch)", &cspec, want_trace);
         if !usable(&mut out, "c06", &clean, &features) {
             return out;
@@ -384,6 +387,7 @@ impl Property for C06 {
         }
         let mut nspec = batch_spec(&defs, &stmt, &build_files(true), jnoisy.as_deref());
         nspec.format = format.clone();
+        nspec.single_result = single;
         nspec.read_mode = read_mode_from_json(case, "read_mode");
         let noisy_res = run(&mut out, "noisy twin (batch)", &nspec, want_trace);
         if !usable(&mut out, "c06", &noisy_res, &features) {
@@ -440,6 +444,7 @@ impl Property for C06 {
                 f.appends.retain(|c| !c.is_empty());
                 f.end_after_idle = Some(2);
                 f.format = format.clone();
+                f.single_result = single;
                 f.event_budget = 4000 + 4 * content.len();
                 f
             };
